@@ -1,10 +1,24 @@
 import JF.Props.C09PoolsClosed
 import JF.Lemmas.C09PoolsClosed2Run
+import JF.Lemmas.C09PoolsClosed2Formula
 /-!
 # C09, last clause — the loose ends of `JF/Props/C09PoolsClosed.lean` part B (E46)
 
-(a) the very first call of `get_event_handlers_to_run` along `Reach2` (`cs = []`): `no_pool_exhausted_first2`;
-(b) instances for the other shipped wirings of the world of composite objects without cells.
+(a) **the very first call** of `get_event_handlers_to_run` along `Reach2` (`cs = []`): `demand_le_pool_first2`,
+    `no_pool_exhausted_first2` (no `Fits2`, no `selSound` needed: on the initial state, at rest, the factor and active-root-unit taggers
+    yield nothing); `no_pool_exhausted_every_call2`: B at EVERY call of every run;
+(b) **instances** for the other shipped wirings of the world of composite objects without cells: `dipoles/atom_factors.ini`,
+    `dipoles/dipole_factors_{inside_first, outside_first, ratio}.ini`, `water/single_molecule.ini` (`hyp2_*`, `selSound_*`,
+    `no_pool_exhausted_*`), and the every-call form for `dipole_motion.ini`;
+(c) **non-vacuity of B**: a concrete 7-leg `Reach2` run of `dipole_motion.ini` with both mode switches
+    (`JF/Lemmas/C09PoolsClosed2Run.lean`: `reach7`), to which B1 / B2 / the first-call theorem are applied (`Example`);
+(d) **`hard_disk_dipoles.ini`** (81 dipoles): `shortfalls_hard_disk_dipoles`, kernel-checked through the closed formula of
+    `JF/Lemmas/C09PoolsClosed2Formula.lean` (`demandMax_leaf_inter` / `demandMax_leaf_intra`, `shortfallsF`, `shortfalls_nil_of_F`),
+    and `no_pool_exhausted_hard_disk_dipoles`.
+
+Nothing here is `_partial`.  Remaining hypotheses are those of part B: `Hyp2` (decidable), `Fits2`, what `SysStep2` assumes.
+Suggestion for the generator (`harness/translate_pools.py`): emit `shortfallsF pool_X = []` (`decide +kernel`, cheap for every
+configuration) and derive `shortfalls_X` by `shortfalls_nil_of_F`, instead of skipping the theorem when the brute-force cost is high.
 -/
 namespace JF.C09Pools.Closed2
 open JF JF.Act JF.Heap JF.Sched JF.Med JF.CW2 JF.C14 JF.MediatorLoop JF.Sys JF.Sys2 JF.Composite JF.C12 JF.SystemInv2 JF.C09Pools
@@ -213,3 +227,56 @@ example (cand : HandlerId → XTime) : leg M (specI xcfg) s7.med (mkO s7.cs cand
     (by intro cl h; simp [cs7c] at h; subst h; decide +kernel) (fits _ (by decide +kernel)) rfl
 
 end JF.C09Pools.Closed2.Example
+
+/-! ## (d) `hard_disk_dipoles/hard_disk_dipoles.ini` (81 dipoles): a kernel-checked `shortfalls = []` through the closed formula
+
+`JF/Lemmas/C09PoolsClosed2Formula.lean`: for a factor tagger asked in leaf mode only the demand over all one-chain states is at most
+`(nRoots − 1) · maxEntries` (inter-object type) resp. `maxEntries` (intra-object type) — `demandMax_leaf_inter`, `demandMax_leaf_intra`,
+proved once from C10's specification of the factor maps; `shortfallsF` is the obligation with that formula, `shortfalls_nil_of_F` the
+implication.  For `hard_disk_dipoles.ini`: `sphere` (inter, pool 160) has the bound `80 · 2 = 160` — attained —, `dipole` (intra, pool 1)
+the bound 1. -/
+
+namespace JF.C09Pools.Closed2
+open JF JF.Act JF.Act.Gen JF.Heap JF.Sched JF.Med JF.CW2 JF.C14 JF.MediatorLoop JF.Sys JF.Sys2 JF.Composite JF.C12 JF.SystemInv2
+  JF.C09Pools JF.C09Pools.Gen
+
+/-- the cheap obligation (closed formula), by kernel evaluation -/
+theorem shortfallsF_hard_disk_dipoles : shortfallsF pool_hard_disk_dipoles_hard_disk_dipoles = [] := by decide +kernel
+
+/-- **`shortfalls pool_hard_disk_dipoles_hard_disk_dipoles = []`, kernel-checked** (the brute-force evaluation takes ≈ 9 min; the
+generator only computed it in Python) -/
+theorem shortfalls_hard_disk_dipoles : shortfalls pool_hard_disk_dipoles_hard_disk_dipoles = [] :=
+  shortfalls_nil_of_F shortfallsF_hard_disk_dipoles
+
+/-- the formula values: `sphere` 160 = its pool (the bound is attained: `poolcorr` measures 160 on the real tagger), `dipole` 1 -/
+example : demandBoundF pool_hard_disk_dipoles_hard_disk_dipoles 0 = 160 ∧ demandBoundF pool_hard_disk_dipoles_hard_disk_dipoles 1 = 1 ∧
+    (cfg_hard_disk_dipoles_hard_disk_dipoles.tagger 0).pool = 160 := by decide +kernel
+
+/-- the formula is not trivially satisfied: with the pool of `sphere` lowered by one the cheap obligation reports it -/
+example : shortfallsF { pool_hard_disk_dipoles_hard_disk_dipoles with
+    w := { cfg_hard_disk_dipoles_hard_disk_dipoles with taggers := cfg_hard_disk_dipoles_hard_disk_dipoles.taggers.map fun t =>
+      if t.tag == "sphere" then { t with pool := 159 } else t } } = [(0, 159, 160)] := by decide +kernel
+
+/-- on the small configurations the formula and the brute-force bound agree (two dipoles: `coulomb` 4·1, `harmonic` 1, `repulsive` 1·… ) -/
+example : (List.range 3).map (demandBoundF pool_dipoles_dipole_factors_ratio) =
+    (List.range 3).map (demandBound pool_dipoles_dipole_factors_ratio) := by decide +kernel
+example : shortfallsF pool_dipoles_dipole_motion = [] ∧ shortfallsF pool_water_single_molecule = [] ∧
+    shortfallsF pool_hard_disk_dipoles_single_hard_disk_dipole = [] := by decide +kernel
+
+theorem hyp2_hard_disk_dipoles (env : CW2.Env ℚ) (hL : BoxOK env.d env.L) : Hyp2 env mcfg_hard_disk_dipoles_hard_disk_dipoles 5 :=
+  ⟨hL, cfg_sound_hard_disk_dipoles_hard_disk_dipoles, by decide, by decide, modeSound_hard_disk_dipoles_hard_disk_dipoles⟩
+
+theorem selSound_hard_disk_dipoles :
+    selSound mcfg_hard_disk_dipoles_hard_disk_dipoles pool_hard_disk_dipoles_hard_disk_dipoles 5 = true := by decide +kernel
+
+/-- **`hard_disk_dipoles/hard_disk_dipoles.ini`: no pass of any run raises `TagActivatorError`** (81 dipoles; first call included) -/
+theorem no_pool_exhausted_hard_disk_dipoles (env : CW2.Env ℚ) (hL : BoxOK env.d env.L) {needs : HandlerId → Bool}
+    {os : List (Oracle XTime)} {cs : List (Committed XTime)} {s : Sys2} {o : Oracle XTime}
+    (hr : Reach2 env mcfg_hard_disk_dipoles_hard_disk_dipoles 5 needs os cs s)
+    (hgo : ∀ cl, cs.getLast? = some cl → cl.stop = false) (fit : Fits2 pool_hard_disk_dipoles_hard_disk_dipoles env s.cs)
+    (hy : o.yields = fun T => CW2.yieldCls env T (mcfg_hard_disk_dipoles_hard_disk_dipoles.w.tagger T).cls s.cs) :
+    leg (mwire mcfg_hard_disk_dipoles_hard_disk_dipoles.w 5 needs) (specI xcfg) s.med o ≠ .error .tagActivatorError :=
+  no_pool_exhausted_every_call2 pool_hard_disk_dipoles_hard_disk_dipoles (hyp2_hard_disk_dipoles env hL) rfl
+    shortfalls_hard_disk_dipoles selSound_hard_disk_dipoles hr hgo fit hy
+
+end JF.C09Pools.Closed2
